@@ -1,5 +1,6 @@
 import SnowModel.Drv.Util
 import SnowModel.Core.Stop
+import SnowModel.Core.StopTables
 open Lean
 
 namespace SnowModel.Drv.C07
@@ -28,8 +29,31 @@ def getCrit (j : Json) : Except String Crit := do
   | none => pure defaultCrit           -- no stopping criteria given: SnowfakeryApplication(None)
   | some t => pure ⟨← t.getStr?, ← getNat j "count"⟩
 
+open SnowModel.StopTables in
+partial def parseTmpl (j : Json) : Except String Tmpl := do
+  let t ← getStr j "t"
+  let incs ← (← getArr j "inc").mapM (fun x => x.getStr?)
+  let kids ← (← getArr j "kids").mapM parseTmpl
+  pure (.mk t incs.toList kids.toList)
+
+open SnowModel.StopTables in
+def parseMacro (j : Json) : Except String StopTables.Macro := do
+  let n ← getStr j "name"
+  let incs ← (← getArr j "inc").mapM (fun x => x.getStr?)
+  let kids ← (← getArr j "kids").mapM parseTmpl
+  pure ⟨n, incs.toList, kids.toList⟩
+
 def handle (m : String) (j : Json) : Except String Json := do
   match m with
+  | "c07.tables" =>
+    let ms ← (← getArr j "macros").mapM parseMacro
+    let sts ← (← getArr j "statements").mapM parseTmpl
+    let fuel ← getNat j "fuel"
+    match SnowModel.StopTables.parseTables fuel ⟨ms.toList, sts.toList⟩ with
+    | .ok l => pure (Json.arr #[Json.str "ok", Json.arr (l.map Json.str).toArray])
+    | .error .macroNotFound => pure (Json.arr #[Json.str "error", Json.str "macroNotFound"])
+    | .error .macroCycle => pure (Json.arr #[Json.str "error", Json.str "macroCycle"])
+    | .error .fuel => pure (Json.arr #[Json.str "error", Json.str "fuel"])
   | "c07.run" =>
     let tables ← (← getArr j "tables").mapM (fun t => t.getStr?)
     let c ← getCrit j
